@@ -216,6 +216,9 @@ func (s *Solver) Check() Result {
 
 func (s *Solver) checkCmd(cmdText string) Result {
 	if s.dead {
+		if !strings.HasPrefix(s.LastErr, "dead:") {
+			s.LastErr = "dead: " + s.LastErr
+		}
 		return Unknown
 	}
 	t0 := time.Now()
